@@ -383,7 +383,10 @@ func (s *Sim) FailK(clause, key, format string, args ...interface{}) {
 	msg := fmt.Sprintf(format, args...)
 	s.lock()
 	s.failures = append(s.failures, Failure{clause, key, msg, s.Step, s.seq})
+	// the message may carry a stack trace (goroutine ids, addresses): keep it out of the trace hash
+	h := s.hash
 	s.emitLocked(nil, "FAIL", 0, clause+": "+msg)
+	s.hash = fnvs(fnvs(h, clause), key)
 	s.unlock()
 }
 
@@ -440,11 +443,12 @@ func (s *Sim) startTask(t *Task, fn func()) {
 		t.goid = goid()
 		regStore(t)
 		defer func() {
-			raceDisable()
-			regDelete(t)
 			if r := recover(); r != nil && !t.killed.Load() {
+				// format outside the hidden region (fmt's printer pool is real sync)
 				s.Fail("panic", "task %s (%s) panicked: %v\n%s", t.Name, t.Entry, r, trimStack(debug.Stack()))
 			}
+			raceDisable()
+			regDelete(t)
 			s.lock()
 			atomic.StoreInt32(&t.state, stDone)
 			if !s.killing {
